@@ -15,6 +15,30 @@ CHECKS = {
             "Trusted: z3, the sx models of int()/str()/dict.get/str ops (validated per path against the real code), the "
             "reference algorithms in harness/c20.py.",
             "DESIGN.md section 3 C20", ""),
+    "C09": (True,
+            "All digits of every notation shape (date, date-time, +ms, every offset form, zone names) are symbolic; z3 proves per path "
+            "that the real DateTime/Time converters return the aware UTC instant an independent calendar arithmetic assigns, that every "
+            "single-field out-of-range / inserted / deleted / non-digit corruption raises, and that the writer's text (8 output shapes) "
+            "denotes the original instant within 500us for every instant 1900-2200 x every whole-minute offset -12:00..+14:00. "
+            "Bounded (years, name length, one corruption at a time); not a proof.",
+            "Trusted: z3; sx models of re (backtracking over the real compiled patterns), int(), datetime/timedelta arithmetic, strftime "
+            "(each validated per path on the real code); the reference calendar arithmetic in harness/c09.py.",
+            "DESIGN.md section 3 C09", ""),
+    "C10": (True,
+            "For each element type and parameterisation (lengths None/1/2/3, scales None/1/2/3, required or not, three enumeration sets) "
+            "values and texts are symbolic over the whole bounded domain; z3 proves write-escape-read identity, canonical fixed points, "
+            "None handling, acceptance exactly up to the limit and rejection beyond it / of foreign characters. Wrong Python types are a "
+            "finite side list. Bounded model checking.",
+            "Trusted: z3; models of saxutils.unescape (instrumented source), str.replace, int/str, decimal.Decimal (validated per path); "
+            "the reference entity decoder / half-even quantizer in harness/c10.py.",
+            "DESIGN.md section 3 C10", ""),
+    "C11": (True,
+            "Per-type layer: for every value the converter accepts (Decimals sign x coef<10^6 x exponent -30..+30 plus special literals, "
+            "integers |v|<=10^7 and bools, booleans, enumeration tokens, bounded strings, date-times via the C09 writer) the written text is "
+            "matched against the OFX lexical rule by running the rule's regex through the symbolic regex engine; z3 must find no accepted "
+            "value whose text falls outside the rule. The per-class layer / wire escaping is covered under C01, C06, C13.",
+            "Trusted: z3; models of Decimal str/format/quantize, str(int), strftime, regex (validated per path on the real code).",
+            "DESIGN.md section 3 C11", ""),
 }
 
 NOT_YET = {
